@@ -6,6 +6,8 @@ from checks.c01_c03_engine import COMPONENTS
 RULE = ('(a) bounded complete sweep: for each base scenario (transport x timeout {0, 3 ms, default} x size {1,3,2000} x select/poll x '
         'EOF flavour) the peer action {write 5 bytes then exit | second write | exit after an earlier write} is placed immediately '
         'before EVERY intercepted system call n of the reader, with the dead child reapable at once or after a gap; '
+        '(a2) every choice sequence of the thread scheduler (main thread vs PopenSpawn reader thread) of length 7 (10 thorough) for a '
+        'child writing 1500 bytes in two pieces and exiting, x size {1,700,2000} x timeout {0, 2 ms}; '
         '(b) seeded exploration: 0..300 KB in seeded pieces/delays/ordinal placements, torn reads, coalesced writes, pipe/pty '
         'capacity 1..65536, maxread/size 1..100000, exit / kill / close / close-then-exit, reader thread pre-emption (popen), '
         'drain by read_nonblocking(size, T) loop, expect(EOF) or read(). Oracle: concatenation of everything returned == kernel '
